@@ -390,3 +390,71 @@ def ok_blocks(fn, variant="Ok"):
 
 def proj_variants(proj):
     return [p[1:] for p in proj if p.startswith("@")]
+
+
+def option_arms(fn, call):
+    """Where control goes depending on whether the Option/Result returned by `call` is
+    None/Err ('none') or Some/Ok ('some'): looks at direct `match`/`if let` switches on the result
+    and at `?` (Try::branch + ControlFlow switch).  Returns {'none': [bb…], 'some': [bb…], 'switches': n}."""
+    out = {"none": [], "some": [], "switches": 0}
+    branch_calls = []
+    for c in fn.calls:
+        if c.name == "branch" and c.args and any(o.kind == "call" and o.ref is call and not o.proj for o in fn.trace_operand(c.args[0])):
+            branch_calls.append(c)
+    for bi in sorted(fn.live_blocks):
+        si = fn.switch_info(bi)
+        if not si or not si.get("enum") or si["place"] is None:
+            continue
+        roots = fn.trace_place(si["place"])
+        en = si["enum"]
+        if any(o.kind == "call" and o.ref is call and not [p for p in o.proj if p != "*" and p != "&"] for o in roots):
+            if en.startswith("core::option::Option"):
+                out["none"].append(si["arms"].get("None"))
+                out["some"].append(si["arms"].get("Some"))
+                out["switches"] += 1
+            elif en.startswith("core::result::Result"):
+                out["none"].append(si["arms"].get("Err"))
+                out["some"].append(si["arms"].get("Ok"))
+                out["switches"] += 1
+        for bc in branch_calls:
+            if any(o.kind == "call" and o.ref is bc and not o.proj for o in roots) and "ControlFlow" in en:
+                out["none"].append(si["arms"].get("Break"))
+                out["some"].append(si["arms"].get("Continue"))
+                out["switches"] += 1
+    out["none"] = [b for b in out["none"] if b is not None]
+    out["some"] = [b for b in out["some"] if b is not None]
+    return out
+
+
+def assigns_ret_variant(fn, blocks, variant):
+    """blocks (subset) in which `_0 = <variant>(..)` is assigned (Option/Result aggregate)"""
+    out = []
+    for bi in blocks:
+        for s in fn.blocks[bi]["s"]:
+            if s[0] == "A" and s[1][0] == 0 and not s[1][1] and s[2][0] == "agg" and s[2][1].get("variant") == variant:
+                out.append(bi)
+    return out
+
+
+def bool_arms(fn, call):
+    """targets of the switch on the bool returned by `call` (possibly through `!`):
+    returns {'true': bb, 'false': bb} or None"""
+    for bi in sorted(fn.live_blocks):
+        si = fn.switch_info(bi)
+        if not si or "true" not in si["arms"]:
+            continue
+        neg = False
+        origins = fn.trace_operand(si["op"])
+        for o in origins:
+            cur = o
+            # look through `Not`
+            while cur.kind == "op" and cur.ref[2][0] == "un" and cur.ref[2][1] == "Not":
+                neg = not neg
+                inner = fn.trace_operand(cur.ref[2][2])
+                cur = inner[0] if inner else cur
+                if cur.kind != "op":
+                    break
+            if cur.kind == "call" and cur.ref is call:
+                t, f = si["arms"]["true"], si["arms"]["false"]
+                return {"true": f if neg else t, "false": t if neg else f, "switch": bi}
+    return None
